@@ -343,13 +343,7 @@ def p6(ctx):
     sw = set(C.slot_writers(crate))
     # self-symmetry deriver: adds to a class group, is not the leader union, does not shrink slots
     leaders = set(C.leader_union_functions(crate)) | set(C.leader_helpers(crate))
-    der = []
-    for b in crate.fns():
-        if b.id in leaders or b.id in sw:
-            continue
-        adds = [c for c in b.all_calls() if c.callee and c.callee.is_("add", "group::Group") and c.args and role_mentions_field(c.body.role_of_operand(c.args[0]), "classes")]
-        if adds:
-            der.append(b.id)
+    der = sorted({b.id for b, c in C.self_symmetry_sites(crate)})
     C.need("self-symmetry deriver", der)
     ctx.roleset("self-symmetry deriver", der)
     n = 0
